@@ -116,7 +116,7 @@ func runOneReattach(c raCase) (sx.V, sx.V) {
 		if err != nil {
 			return nil, err
 		}
-		callers[i] = raw.(vp.Caller)
+		callers[i] = bounded(raw.(vp.Caller))
 		return callers[i], nil
 	}
 	call := func(i int, req vp.Req) (vp.Resp, error) {
